@@ -57,8 +57,8 @@ func (s *vShadow) vF2NewBalances(n int, bound uint64) []Gwei {
 // pending move 3, later move 3, [round 2: new length nVal+2].
 // Params: validators (2), bal_bound (16), all_nodes (0: vote candidates are P2@3, P3@3, P4@4, (P1,1) (pruned when
 // finalizing) or no vote; 1: every node), rounds (1), extra_voter (0: the voter outside the initial list only casts
-// the "later" vote; 1: it may also vote for P3@3 at the start), root_order (0: concrete roots ascending with the insertion order, 1: descending,
-// -1: symbolic roots).
+// the "later" vote; 1: it may also vote for P3@3 at the start), root_order (0: concrete roots ascending with the
+// insertion order, 1: descending, -1: symbolic roots).
 func VerifHarness_C09_balance_changes() {
 	nVal := zzverif.Param("validators", 2)
 	bound := uint64(zzverif.Param("bal_bound", 16))
